@@ -258,7 +258,7 @@ func runSweep(prog *load.Program, propID string, selected []*core.Rule, base []c
 						if ob.Verdict != core.Lost {
 							n++
 						}
-						if (ob.Verdict == core.Violation || ob.Verdict == core.Lost) && !baseBad[ob.Key()] {
+						if (ob.Verdict == core.Violation || ob.Verdict == core.Lost || ob.Verdict == core.Undecided) && !baseBad[ob.Key()] {
 							known := false
 							for _, f := range findings {
 								if f.Match(propID, ob) || (propID == "" && f.Status == "known" && f.Rule == ob.Rule && f.Construct == ob.Construct) {
